@@ -966,8 +966,9 @@ parsec_list_nolock_chain_sort_mergesort(parsec_list_t *list,
     /* Remove the items from the list, and clean the list */
     items = parsec_list_item_ring((parsec_list_item_t*)_HEAD(list),
                                  (parsec_list_item_t*)_TAIL(list));
-    _HEAD(list) = _GHOST(list);
-    _TAIL(list) = _GHOST(list);
+    /* The head of the list keeps designating an element while the ring is
+     * sorted: the unlocked emptiness test of the pop functions must not see
+     * a non-empty list as empty while it is being sorted. */
 
     insize = 1;
 
@@ -1040,7 +1041,14 @@ parsec_list_nolock_chain_sort_mergesort(parsec_list_t *list,
         /* Otherwise repeat, merging lists twice the size */
         insize *= 2;
     }
-    parsec_list_nolock_chain_front(list, items);
+    /* relink the sorted ring in place of the old content (the list is never
+     * seen empty: _HEAD goes from one element to another in a single store) */
+    PARSEC_ITEMS_ATTACH(list, items);
+    tail = (parsec_list_item_t*)items->list_prev;
+    items->list_prev = _GHOST(list);
+    tail->list_next = _GHOST(list);
+    _TAIL(list) = tail;
+    _HEAD(list) = items;
 }
 
 static inline void
